@@ -101,7 +101,7 @@ Lemma parse_callable_lambda ce ps b l' :
   Capture.parse_callable ce (Lambda ps b) = Capture.Ok l' -> exists b', l' = Lambda ps b'.
 Proof.
   unfold Capture.parse_callable, Capture.rewrite_captured. cbn [Capture.rw Capture.same Capture.sbind].
-  destruct (Capture.rw ce [ps] b) as [[b1 b2]|e]; cbn; intros H; [|discriminate].
+  destruct (Capture.rw ce [ps ++ Capture.assigned b] b) as [[b1 b2]|e]; cbn; intros H; [|discriminate].
   inversion H; eauto.
 Qed.
 
